@@ -91,6 +91,13 @@ ITER_EXCS = {"ValueError": ValueError, "AttributeError": AttributeError, "KeyErr
              "TypeError": TypeError, "RuntimeError": RuntimeError, "ZeroDivisionError": ZeroDivisionError, "NamingError": E.NamingError}
 
 
+class _Err:
+    """what is kept of an exception: plain data"""
+
+    def __init__(self, cls, text, comm, proto):
+        self.cls, self.text, self.comm, self.proto = cls, text, comm, proto
+
+
 class SeqBase:
     """focus shape 'iterate the proxy': a sequence-like remote object; `for x in proxy` streams its __iter__ generator, which
     raises an exception of a chosen class at position `bad`"""
@@ -713,6 +720,13 @@ class StreamWorld(World):
             _Run.cur = None
             for it in its.values():     # _StreamResultIterator.__del__ calls close(): make that a no-op at teardown
                 it.proxy = None
+            # ... and for every other stream iterator of this run that is still around (dropped by the scenario, but alive in a
+            # reference cycle: exception -> traceback -> frame of __next__). Finalised later - by the collector at the start of the
+            # next run, or by a collection INSIDE the next run ('forget' steps) - its __del__ would open a connection to "its"
+            # daemon: the next run's daemon has the same address, and would get a close_stream message out of nowhere.
+            for o in gc.get_objects():
+                if type(o) is CL._StreamResultIterator:
+                    o.proxy = None
 
     def _nested(self, ctx, run, its):
         """focus shape 'nested serve' (own small oracle; see gen)"""
@@ -801,13 +815,20 @@ class StreamWorld(World):
                 if len(got) > 3 * n + 3:
                     break
         except Exception as x:  # noqa
-            err = x
+            # (plain data, never the exception object: its traceback holds this frame, this frame would hold it - a cycle that only
+            #  the collector frees, i.e. the NEXT run's start, where the stream iterator's __del__ would then talk to a dead daemon)
+            try:
+                text = str(x)[:200]
+            except Exception:  # noqa
+                text = "<cannot be rendered>"
+            err = _Err(type(x).__name__, text, isinstance(x, E.CommunicationError), isinstance(x, E.ProtocolError))
         ctx.nontrivial = True
         ctx.probe("iterated_proxy")
         if want_exc:
             ctx.probe("iterated_proxy_generator_raises")
-        if isinstance(err, E.CommunicationError) and not (want_exc == "Unserializable" and isinstance(err, E.ProtocolError)):
-            ctx.disturbed = "iteration lost its connection: %s" % err
+        if err is not None and err.comm and not (want_exc == "Unserializable" and err.proto):
+            ctx.disturbed = "iteration lost its connection: %s" % err.text
+            px._pyroRelease()
             return
         what = "for x in proxy over %d items%s" % (n, (", generator raises %s at position %d" % (want_exc, bad)) if want_exc else "")
         if got[:len(want)] != want:
@@ -821,13 +842,13 @@ class StreamWorld(World):
                             % (what, got))
             elif want_exc == "Unserializable":
                 ctx.probe("unserializable_item")
-            elif type(err).__name__ != want_exc:
+            elif err.cls != want_exc:
                 ctx.violate("generator-exception-lost", "iterate-proxy:wrong:" + want_exc, "%s raised %s: %s instead of the generator's "
-                            "exception" % (what, type(err).__name__, err))
+                            "exception" % (what, err.cls, err.text))
             else:
                 ctx.probe("generator_exception")
         elif not want_exc and err is not None:
-            ctx.violate("error-while-live", "iterate-proxy", "%s raised %s: %s" % (what, type(err).__name__, err))
+            ctx.violate("error-while-live", "iterate-proxy", "%s raised %s: %s" % (what, err.cls, err.text))
         # (a fetch whose item could not be serialised leaves the stream alive - the server-side iterator did not fail; whatever
         #  state the stream is in, it must be gone once the client has left and the linger period has passed)
         err = None
